@@ -7,7 +7,8 @@ use cozy_chess::*;
 
 fn parse_model(m: &Model) -> Option<Board> {
     match parse_via(&m.to_fen(true), Entry::Sfen) {
-        Ok(Ok(b)) => Some(b),
+        // only a board that reads back as the model's position is a legitimate partner for a pair
+        Ok(Ok(b)) if adopt(&b) == *m => Some(b),
         _ => None,
     }
 }
